@@ -50,7 +50,7 @@ for sid in ids:
         pending.append(sid)
 summary = ('%d seeded changes over %d properties are stored. On the FIRST run of the then-current check %d were reported with a '
            'concrete failing input (schedule, program or operation sequence as replay), %d were reported without one '
-           '(`no-failing-input-found`: only a tie / the translator / the correspondence broke) and %d was missed. After the '
+           '(`no-failing-input-found`: only a tie / the translator / the correspondence broke) and %d went unreported (exit 0). After the '
            'strengthening recorded per row, all are reported with a failing input%s.\n'
            % (len(rows), len(props), first['input'], first['noinput'], first['missed'],
               (' except ' + ', '.join(pending) + ' (in progress)') if pending else ''))
